@@ -112,10 +112,22 @@ def cases(draw):
 def check_chunk(ctx, chunk, block, dtype_name, what):
     from neuroglancer_scripts.chunk_encoding import \
         CompressedSegmentationEncoder
+    block_arg = list(block)
     enc = CompressedSegmentationEncoder(dtype_name, chunk.shape[0],
-                                        list(block))
+                                        block_arg)
     try:
+        if chunk.size <= 4096:
+            # the same encoder object is used for many chunks by the I/O
+            # layer: encode another chunk first, and this one twice
+            other = np.roll(chunk, 1, axis=3) + chunk.dtype.type(1)
+            enc.encode(other)
+            first = bytes(enc.encode(chunk))
         buf = bytes(enc.encode(chunk))
+        if chunk.size <= 4096 and buf != first:
+            ctx.fail("encoding the same chunk twice with one encoder object "
+                     "gives different bytes (%s)" % what)
+        if block_arg != list(block):
+            ctx.fail("the encoder modified its block_size argument")
     except Exception as exc:
         ctx.fail("encode raised %s: %s (%s)" % (type(exc).__name__, exc,
                                                 what))
@@ -251,7 +263,7 @@ def replay(ctx, case):
 
 
 SUBS = [
-    Sub("encode", run, replay, quick=3000, thorough=120000),
+    Sub("encode", run, replay, quick=2400, thorough=120000),
     Sub("bits16", run_family(16), replay, quick=80, thorough=1500, shards=4),
     Sub("bits32", run_family(32), replay, quick=16, thorough=200, shards=4),
     Sub("many_tables", run_many_tables, replay, quick=4, thorough=40,
